@@ -260,6 +260,9 @@ template <class T> struct Runner {
                         VF_CHECK((a < z) == (i < j) && (a <= z) == (i <= j) && (a > z) == (i > j) && (a >= z) == (i >= j) && (a == z) == (i == j), "CONTENT", "%s: iterator comparison wrong", when);
                         auto p = a++; VF_CHECK(Elem<T>::val(*p) == m.v[i], "CONTENT", "%s: post-increment returned wrong position", when);
                         auto q = en - 1; VF_CHECK(Elem<T>::val(*q) == m.v[n - 1], "CONTENT", "%s: end()-1 is not the last element", when);
+                        auto r = en; r -= (std::ptrdiff_t)(n - i); VF_CHECK(Elem<T>::val(*r) == m.v[i], "CONTENT", "%s: end() -= k reads the wrong element", when);
+                        auto d = bg + (std::ptrdiff_t)j; auto old = d--; VF_CHECK(Elem<T>::val(*old) == m.v[j] && (j == 0 || Elem<T>::val(*d) == m.v[j - 1]), "CONTENT", "%s: post-decrement wrong", when);
+                        auto u = bg + (std::ptrdiff_t)i; ++u; --u; VF_CHECK(u == a - 1 && u != en, "CONTENT", "%s: ++/-- do not cancel", when);
                     }
                     return 0;
                 });
